@@ -627,6 +627,154 @@ theorem gen_bca_fcf_table :
 theorem gen_memcfg_table :
     (layoutsD.filter (fun ld => ld.1.kind == 9)).all (fun ld => memcfgTableB ld.1 ld.2) = true := by decide +kernel
 
+/-! ## BCA / FCF / FCB / memory-configuration option words end to end over the GENERATED layouts (bca.py, fcf.py, fcb.py,
+    segments_base.py, memcfg.py): size, own parser, byte order - every family, revision and memory type of the database -/
+
+/-- the segment areas of the table have a binary form, and the documented size of a BCA / FCF layout IS `BCA.SIZE` / `FCF.SIZE` -/
+theorem gen_segment_sizes :
+    (Generated.RegLayouts.layouts.filter (fun l => l.kind == 4 || l.kind == 5 || l.kind == 6)).all (fun l => l.binary &&
+      (l.kind != 4 || l.docSize == Generated.RegLayouts.bcaSize) && (l.kind != 5 || l.docSize == Generated.RegLayouts.fcfSize)) = true := by
+  decide +kernel
+
+theorem fcbTableB_spec {minSize : Nat} {tag : Bytes} {l : Layout} {d : LayoutD} (h : fcbTableB minSize tag l d = true) :
+    ∃ ti r rd, d.aux = [ti] ∧ l.regs[ti]? = some r ∧ d.regs[ti]? = some rd ∧ r.off = 0 ∧ r.width = 32 ∧ leEnc 4 rd.init = tag ∧
+      minSize ≤ l.exportLen ∧ l.exportLen % 2 = 0 := by
+  unfold fcbTableB at h
+  split at h
+  · next ti haux =>
+    simp only [Bool.and_eq_true, decide_eq_true_eq, beq_iff_eq] at h
+    obtain ⟨⟨h1, h2⟩, h3⟩ := h
+    split at h1
+    · next r rd hr hrd =>
+      simp only [Bool.and_eq_true, beq_iff_eq, Bool.not_eq_true'] at h1
+      exact ⟨ti, r, rd, haux, hr, hrd, h1.1.1.1, h1.1.1.2, h1.2, h2, h3⟩
+    · cases h1
+  · cases h
+
+/-- **BCA, every generated layout** (every family / revision that has a BCA): a state whose TAG word holds `kcfg` exports to exactly
+    `BCA.SIZE` bytes, `BCA.parse` accepts them and gives the state back; the fresh object (template state) is such a state -/
+theorem gen_bca_roundtrip (l : Layout) (d : LayoutD) (hld : (l, d) ∈ layoutsD) (hk : l.kind = 4)
+    (hill : knownIllFormed.contains l.name = false) (vals : Vals) (hs : StateOK l vals) :
+    ∃ ti, d.aux = [ti] ∧ leEnc 4 (d.initVals.getD ti 0) = Generated.RegLayouts.bcaTag ∧
+      (leEnc 4 (vals.getD ti 0) = Generated.RegLayouts.bcaTag →
+        ∃ b, exportArea l vals = .ok b ∧ b.length = Generated.RegLayouts.bcaSize ∧
+          bcaParse Generated.RegLayouts.bcaTag ti l b vals = .ok vals) := by
+  have hl : l ∈ Generated.RegLayouts.layouts := (List.of_mem_zip hld).1
+  have wf := gen_layouts_wellformed l hl hill
+  have hseg := gen_segment_sizes
+  rw [List.all_eq_true] at hseg
+  have h1 := hseg l (List.mem_filter.2 ⟨hl, by simp [hk]⟩)
+  simp only [hk, Bool.and_eq_true, bne_self_eq_false, Bool.false_or, beq_iff_eq] at h1
+  have hb : l.binary = true := h1.1.1
+  have hdoc : l.docSize = Generated.RegLayouts.bcaSize := h1.1.2
+  have ht := gen_bca_fcf_table.1
+  rw [List.all_eq_true] at ht
+  obtain ⟨ti, r, rd, haux, hr, hrd, _, hw, hinit, hmin, _⟩ := fcbTableB_spec (ht (l, d) (List.mem_filter.2 ⟨hld, by simp [hk]⟩))
+  refine ⟨ti, haux, ?_, ?_⟩
+  · simp [LayoutD.initVals, List.getD_eq_getElem?_getD, List.getElem?_map, hrd, hinit]
+  · intro htag
+    obtain ⟨b, he, hlen⟩ := area_export_size l vals wf hb hs
+    have hdne : l.docSize ≠ 0 := by rw [hdoc]; decide
+    refine ⟨b, he, by rw [hlen, (wf.bin hb).2.2.1 hdne, hdoc], ?_⟩
+    exact bca_parse_export _ ti l vals b r wf hb hs he hr (by simpa [RegL.bytes, hw] using htag)
+
+/-- **FCF, every generated layout**: every state exports to exactly `FCF.SIZE` bytes, `FCF.parse` accepts them and gives the state back -/
+theorem gen_fcf_roundtrip (l : Layout) (hl : l ∈ Generated.RegLayouts.layouts) (hk : l.kind = 5)
+    (hill : knownIllFormed.contains l.name = false) (vals : Vals) (hs : StateOK l vals) :
+    ∃ b, exportArea l vals = .ok b ∧ b.length = Generated.RegLayouts.fcfSize ∧
+      fcfParse Generated.RegLayouts.fcfSize l b vals = .ok vals := by
+  have wf := gen_layouts_wellformed l hl hill
+  have hseg := gen_segment_sizes
+  rw [List.all_eq_true] at hseg
+  have h1 := hseg l (List.mem_filter.2 ⟨hl, by simp [hk]⟩)
+  simp only [hk, Bool.and_eq_true, bne_self_eq_false, Bool.false_or, beq_iff_eq] at h1
+  have hb : l.binary = true := h1.1.1
+  have hdoc : l.docSize = Generated.RegLayouts.fcfSize := h1.2
+  have ht := gen_bca_fcf_table.2
+  rw [List.all_eq_true] at ht
+  have hmin := ht l (List.mem_filter.2 ⟨hl, by simp [hk]⟩)
+  simp only [decide_eq_true_eq] at hmin
+  obtain ⟨b, he, hlen⟩ := area_export_size l vals wf hb hs
+  have hdne : l.docSize ≠ 0 := by rw [hdoc]; decide
+  exact ⟨b, he, by rw [hlen, (wf.bin hb).2.2.1 hdne, hdoc], fcf_parse_export _ l vals b wf hb hs he hmin⟩
+
+/-- **FCB, every generated layout** (every memory type of every family): a state whose tag word holds `FCFB` exports to the whole
+    block of that memory type (at least `FCB.SIZE`, even length); `FCB.parse` accepts the block AND its byte-swapped form and gives
+    the state back; the fresh object (template state) is such a state -/
+theorem gen_fcb_roundtrip (l : Layout) (d : LayoutD) (hld : (l, d) ∈ layoutsD) (hk : l.kind = 6)
+    (hill : knownIllFormed.contains l.name = false) (vals : Vals) (hs : StateOK l vals) :
+    ∃ ti, d.aux = [ti] ∧ leEnc 4 (d.initVals.getD ti 0) = Generated.RegLayouts.fcbTag ∧
+      (leEnc 4 (vals.getD ti 0) = Generated.RegLayouts.fcbTag →
+        ∃ b, exportArea l vals = .ok b ∧ b.length = l.exportLen ∧ Generated.RegLayouts.fcbSize ≤ b.length ∧
+          fcbParse Generated.RegLayouts.fcbSize Generated.RegLayouts.fcbTag ti l b vals = .ok vals ∧
+          fcbParse Generated.RegLayouts.fcbSize Generated.RegLayouts.fcbTag ti l (swapPairs b) vals = .ok vals) := by
+  have hl : l ∈ Generated.RegLayouts.layouts := (List.of_mem_zip hld).1
+  have wf := gen_layouts_wellformed l hl hill
+  have hseg := gen_segment_sizes
+  rw [List.all_eq_true] at hseg
+  have h1 := hseg l (List.mem_filter.2 ⟨hl, by simp [hk]⟩)
+  simp only [hk, Bool.and_eq_true] at h1
+  have hb : l.binary = true := h1.1.1
+  have ht := gen_fcb_table
+  rw [List.all_eq_true] at ht
+  obtain ⟨ti, r, rd, haux, hr, hrd, ho, hw, hinit, hmin, hev⟩ := fcbTableB_spec (ht (l, d) (List.mem_filter.2 ⟨hld, by simp [hk]⟩))
+  have hmin : Generated.RegLayouts.fcbSize ≤ l.exportLen := hmin
+  have hev : l.exportLen % 2 = 0 := hev
+  have hb4 : r.bytes = 4 := by simp [RegL.bytes, hw]
+  have htl : Generated.RegLayouts.fcbTag.length = 4 := fcb_tag_not_symmetric.2
+  refine ⟨ti, haux, ?_, ?_⟩
+  · simp [LayoutD.initVals, List.getD_eq_getElem?_getD, List.getElem?_map, hrd, hinit]
+  · intro htag
+    obtain ⟨b, he, hlen⟩ := area_export_size l vals wf hb hs
+    have h4l : 4 ≤ l.exportLen := by
+      have : (4 : Nat) ≤ Generated.RegLayouts.fcbSize := by decide
+      omega
+    refine ⟨b, he, hlen, by rw [hlen]; exact hmin, ?_, ?_⟩
+    · exact fcb_parse_export _ _ ti l vals b r wf hb hs he hmin hr ho (by rw [hb4, htl]) (by rw [hb4]; exact htag)
+        fcb_tag_not_symmetric.1
+    · exact fcb_parse_swapped _ _ ti l vals b r wf hb hs he hmin hr ho (by rw [hb4, htl]) htl (by rw [hb4]; exact htag) hev h4l
+
+/-- **memory configuration, every generated peripheral layout** (memcfg.py): the count rule of the database is one of the three the
+    code knows and addresses the first option word; whenever the option words of a state exist, writing them with
+    `option_words_to_bytes` (little-endian 32-bit words, in order) and parsing them into ANY object of that peripheral gives the same
+    option words -/
+theorem gen_memcfg_roundtrip (l : Layout) (d : LayoutD) (hld : (l, d) ∈ layoutsD) (hk : l.kind = 9)
+    (vals cur ws : List Nat) (hs : StateOK l vals) (hc : l.regs.length = cur.length)
+    (how : optionWords d.aux l vals = .ok ws) :
+    (owBytes ws).length = 4 * ws.length ∧ optionWords d.aux l (parseArea l (owBytes ws) cur) = .ok ws := by
+  have ht := gen_memcfg_table
+  rw [List.all_eq_true] at ht
+  have h := ht (l, d) (List.mem_filter.2 ⟨hld, by simp [hk]⟩)
+  simp only [memcfgTableB, Bool.and_eq_true, Bool.not_eq_true', List.isEmpty_eq_false_iff] at h
+  obtain ⟨⟨haux, hw⟩, hne⟩ := h
+  have hlenAll : ∀ xs : List Nat, (owBytes xs).length = 4 * xs.length := by
+    intro xs
+    induction xs with
+    | nil => rfl
+    | cons w xs ih =>
+      have ih' : (List.flatMap (leEnc 4) xs).length = 4 * xs.length := ih
+      simp only [owBytes, List.flatMap_cons, List.length_append, leEnc_length, List.length_cons, ih']; omega
+  have hlen := hlenAll ws
+  refine ⟨hlen, ?_⟩
+  split at haux
+  · next rule ri fi ud hax =>
+    rw [hax] at how ⊢
+    simp only [Bool.and_eq_true, decide_eq_true_eq, Bool.or_eq_true, beq_iff_eq] at haux
+    have hri : rule = 0 ∨ ri = 0 := by
+      rcases haux.2 with h0 | h0
+      · exact Or.inl h0
+      · exact Or.inr h0.1
+    rcases hri with h0 | h0
+    · subst h0
+      -- rule `All`: the register index is not looked at
+      have e : ∀ vs, optionWords [0, ri, fi, ud] l vs = optionWords [0, 0, fi, ud] l vs := by
+        intro vs; simp [optionWords, owCount]
+      rw [e] at how ⊢
+      exact memcfg_parse_option_words 0 fi ud l vals cur ws (wordsFromB_sound 0 l.regs hw) hne hs hc how
+    · subst h0
+      exact memcfg_parse_option_words rule fi ud l vals cur ws (wordsFromB_sound 0 l.regs hw) hne hs hc how
+  · cases haux
+
 /-! ## configuration level: `get_config` → `load_from_config` (on top of the C11 configuration theorems) -/
 
 /-- a well-formed register with its details is a well-formed C11 register -/
@@ -982,7 +1130,6 @@ theorem area_config_roundtrip_groups (l : Layout) (d : LayoutD) (vals : Vals)
     exact toRegG_fields_length r rd v (rv3_fields h3 hr hrd) (hgf i r rd hr hrd) (stateOK_get hs hr hv)) h1
   exact ⟨cfg, n, rf', h1, hn1, hn2, h2, h4, by rw [h4]⟩
 
-#print axioms area_config_roundtrip_groups
 /-! ### … and the database: the group structure of every generated layout is database-like -/
 
 /-- every register of every generated layout is a plain, non-reversed register without alternative widths, or a group without
